@@ -32,7 +32,14 @@ DEVS = ["LogicalReturnsOperand", "BoolCastTruncates", "FloatToUnsignedRejectsNeg
 # Deviations whose defect has been repaired in /repo by a `fix:` commit: the implementation-shaped model then runs
 # with that deviation switched off and the check demands the correct behaviour (README "Genuine defects").
 # Development override: VERIF_C04_FIXED=Name,Name|all
-FIXED = ["CondSameTypeNoPromotion"]        # /repo ba99903 (fix: conditional operator applies the usual arithmetic conversions ...)
+FIXED = ["CondSameTypeNoPromotion",       # /repo ba99903
+         "LogicalReturnsOperand",         # /repo 25f22ce
+         "UnevaluatedOperandFolded",      # /repo 25f22ce (same hunk)
+         "BoolCastTruncates",             # /repo 7730c0b
+         "FloatToUnsignedRejectsNeg",     # /repo eb1de9a
+         "FloatCondNotFolded",            # /repo 849e093
+         "NoDivisionGuard",               # /repo 737afb8 (NaN range tests: 10582f3)
+         "BareAddressMinusRejected"]      # /repo 95fba0e
 
 
 def fixed_devs():
